@@ -12,14 +12,85 @@
 
 use std::{collections::BTreeMap, io::Write as _, sync::Arc};
 
-use foyer_common::{code::Code, metrics::Metrics};
+use foyer_common::{code::Code, metrics::Metrics, spawn::Spawner};
 use foyer_storage::{
-    Compression,
+    Compression, DeviceBuilder, FsDeviceBuilder, IoEngine, IoEngineConfig, PsyncIoEngineConfig,
     verif::{
-        BlobIndexReader, Buffer, BufferEntryInfo, Checksummer, EntryDeserializer, EntryHeader, IoSliceMut, SplitCtx,
-        Splitter, PAGE,
+        BlobIndexReader, Buffer, BufferEntryInfo, Checksummer, EntryDeserializer, EntryHeader, IoEngineBuildContext,
+        IoSliceMut, Partition, SplitCtx, Splitter, Tombstone, TombstoneLog, PAGE,
     },
 };
+
+struct TombDev {
+    dir: std::path::PathBuf,
+    pages: usize,
+    parts: usize,
+    next_seq: u64,
+}
+
+fn ranges(mut v: Vec<u64>) -> String {
+    v.sort();
+    let mut out = vec![];
+    let mut i = 0;
+    while i < v.len() {
+        let mut j = i;
+        while j + 1 < v.len() && v[j + 1] == v[j] + 1 {
+            j += 1;
+        }
+        out.push(if i == j { format!("{}", v[i]) } else { format!("{}-{}", v[i], v[j]) });
+        i = j + 1;
+    }
+    out.join(",")
+}
+
+/// one session of the tombstone log: open (prints what was recovered), append, drop
+fn tomb_session(rt: &tokio::runtime::Runtime, d: &mut TombDev, n: usize, each: bool) -> String {
+    rt.block_on(async {
+        let device = FsDeviceBuilder::new(&d.dir)
+            .with_capacity(d.pages * PAGE)
+            .build()
+            .unwrap();
+        let per = d.pages / d.parts * PAGE;
+        let mut partitions: Vec<Arc<dyn Partition>> = vec![];
+        for i in 0..d.parts {
+            let size = if i + 1 == d.parts { d.pages * PAGE - per * (d.parts - 1) } else { per };
+            partitions.push(device.create_partition(size).unwrap());
+        }
+        let io: Arc<dyn IoEngine> = PsyncIoEngineConfig::new()
+            .boxed()
+            .build(IoEngineBuildContext {
+                spawner: Spawner::current(),
+            })
+            .await
+            .unwrap();
+        let mut rec = vec![];
+        let log = TombstoneLog::open(partitions, io, &mut rec).await.unwrap();
+        let bad = rec.iter().filter(|t| t.hash != t.sequence.wrapping_mul(7)).count();
+        let ts: Vec<Tombstone> = (0..n)
+            .map(|i| {
+                let s = d.next_seq + i as u64;
+                Tombstone {
+                    hash: s.wrapping_mul(7),
+                    sequence: s,
+                }
+            })
+            .collect();
+        d.next_seq += n as u64;
+        if each {
+            for t in ts.iter() {
+                log.append(std::iter::once(t)).await.unwrap();
+            }
+        } else if !ts.is_empty() {
+            log.append(ts.iter()).await.unwrap();
+        }
+        format!(
+            "rec={} count={} badhash={}",
+            ranges(rec.iter().map(|t| t.sequence).collect()),
+            rec.len(),
+            bad
+        )
+    })
+}
 
 fn kvs(line: &str) -> BTreeMap<String, String> {
     line.split_whitespace()
@@ -168,6 +239,9 @@ fn main() {
     let stdout = std::io::stdout();
     let mut out = stdout.lock();
     let mut ctx: Option<(usize, usize, SplitCtx)> = None;
+    let rt = tokio::runtime::Builder::new_current_thread().enable_all().build().unwrap();
+    let mut tomb: Option<TombDev> = None;
+    let mut ndev = 0;
     for line in text.lines() {
         let line = line.trim();
         if line.is_empty() || line.starts_with('#') {
@@ -293,6 +367,27 @@ fn main() {
                     }
                     t => panic!("kty {t}"),
                 },
+                "tombnew" => {
+                    if let Some(d) = tomb.take() {
+                        let _ = std::fs::remove_dir_all(&d.dir);
+                    }
+                    ndev += 1;
+                    let dir = std::env::temp_dir().join(format!("verif-fmt-{}-{}", std::process::id(), ndev));
+                    let _ = std::fs::remove_dir_all(&dir);
+                    std::fs::create_dir_all(&dir).unwrap();
+                    tomb = Some(TombDev {
+                        dir,
+                        pages: kv["pages"].parse().unwrap(),
+                        parts: kv.get("parts").map(|s| s.parse().unwrap()).unwrap_or(1),
+                        next_seq: 1,
+                    });
+                    "ok".into()
+                }
+                "tombsession" => {
+                    let n: usize = kv["n"].parse().unwrap();
+                    let each = kv.get("each").map(|s| s == "1").unwrap_or(false);
+                    tomb_session(&rt, tomb.as_mut().expect("tombnew first"), n, each)
+                }
                 "splitnew" => {
                     let b: usize = kv["B"].parse().unwrap();
                     let i: usize = kv["I"].parse().unwrap();
@@ -349,5 +444,8 @@ fn main() {
             Ok(s) => writeln!(out, "{line} | {s}").unwrap(),
             Err(_) => writeln!(out, "{line} | PANIC").unwrap(),
         }
+    }
+    if let Some(d) = tomb.take() {
+        let _ = std::fs::remove_dir_all(&d.dir);
     }
 }
